@@ -165,7 +165,7 @@ func ruleCheckThenAct(w *World, r *Report, rule string, la *LockAnalysis) {
 	heldAcross := false
 	for _, n := range la.byFunc[fi.Obj].flow.Nodes() {
 		for _, c := range callsIn(n, false) {
-			if callee(info, c) == ro.createInstance.Obj {
+			if ro.isCreate(callee(info, c)) {
 				if len(lockFactsOf(la.HeldAt(n))) > 0 {
 					heldAcross = true
 				}
@@ -225,6 +225,8 @@ func init() {
 			ruleGraphSeesAllDependencies(w, r, "R01.6")
 			ruleKeyLiterals(w, r, "R01.7")
 			ruleTracking(w, r, "R01.8", "", "")
+			r.Rule("R01.9", 5, "exactly its outputs are what is resolved: createInstance calls the descriptor's own constructor and answers instance registrations with the descriptor's own instance")
+			ruleFunctionIdentity(w, r, "R01.9")
 		})
 	register("C02",
 		"Structural necessary conditions of 'scoped: one instance per scope, never shared': the scoped cache is written only in the Scoped clause of setInstance, starts as a fresh map in every scope and is reached only through the receiver; the Scoped clause of resolve consults the cache on the resolved key, returns the hit, constructs only on a miss; every success exit of createInstance has passed setInstance; the initializer pass runs once per created scope; the miss-test/fill pair must be atomic (known finding D2: it is not). NOT decided: identity/counts; fairness of retries.",
@@ -256,6 +258,8 @@ func init() {
 				r.Obs = append(r.Obs, o)
 			}
 			ruleKeyLiterals(w, r, "R02.9")
+			r.Rule("R02.10", 1, "no lost-update on an atomically published cache: a Load followed by a Store of the same atomic field runs under a lock or uses compare-and-swap")
+			ruleAtomicRMW(w, r, "R02.10", la)
 		})
 	register("C03",
 		"Structural necessary conditions of 'transient: a fresh instance for every resolution and injection site': the Transient clause of resolve never consults a cache and every exit comes from a fresh createInstance; the Transient clause of setInstance writes no cache; resolution entry points (including GetGroup) memoise nothing; the invoker, builder and cached analysis records hold no per-call state (record confinement); arguments are resolved one by one per invocation. NOT decided: counts versus number of request sites.",
@@ -278,6 +282,8 @@ func init() {
 			}
 			ruleArgsPerInvocation(w, r, "R03.3b")
 			ruleEntryPointsStoreNothing(w, r, "R03.4")
+			r.Rule("R03.5", 1, "wrappers on the way from resolve to the constructing function never hand a transient request an instance this call did not produce")
+			ruleCreateChain(w, r, "R03.5")
 		})
 	register("C04",
 		"Structural necessary conditions of wiring fidelity: a function's code pointer is never an identity on its own and createInstance calls descriptor.Constructor of the descriptor being constructed (instances bypass the invoker); group members are resolved and registered in order and no ordered result depends on map iteration; the four struct-field walkers apply the same skip predicates before touching a field, the two resolvers dispatch group/name/plain in the same priority, one Dependency per parameter with identity copied; only the optional tag lets a failed field resolution continue; key literals keep every identity component; family fan-out looks members up under the identity they were registered with (known finding D4). NOT decided: that the right instance value arrives.",
@@ -296,6 +302,10 @@ func init() {
 			ruleOptionalOnly(w, r, "R04.5")
 			ruleKeyLiterals(w, r, "R04.7")
 			ruleGraphSeesAllDependencies(w, r, "R04.8")
+			r.Rule("R04.9", 1, "a descriptor's Constructor is reflect.ValueOf of the value registered, never a value from the shared analysis cache")
+			ruleDescriptorConstructorSource(w, r, "R04.9")
+			r.Rule("R04.10", 2, "the descriptor list keeps registration order (append, reset, order-preserving delete only)")
+			ruleListOrderPreserved(w, r, "R04.10", NewLockAnalysis(w))
 		})
 	register("C05",
 		"Structural necessary conditions of 'cycle detection is exact; resolution terminates': every descriptor is added to the graph, the add turns every dependency into an edge and the getters are verbatim; a checked DetectCycles dominates provider allocation and its error is kept as Cause; providers are allocated only by Build; the whole-graph check starts a search from every node and the search follows every edge; group placeholders are linked to their members before every search; deferred insertion rejects nothing but nil; key literals keep Key and Group. NOT decided: correctness of the DFS and of the reported path on all graphs (value-level).",
@@ -316,6 +326,8 @@ func init() {
 			ruleGraphSeesAllDependencies(w, r, "R05.5")
 			ruleDeferredAddTotal(w, r, "R05.6")
 			ruleKeyLiterals(w, r, "R05.7")
+			r.Rule("R05.8", 10, "analysis = runtime: the dependency list is derived from exactly the fields/parameters the invoker resolves (sibling agreement of the struct walkers and resolvers)")
+			ruleFieldFilters(w, r, "R05.8")
 		})
 	register("C06",
 		"Structural necessary conditions of 'build is deterministic, order-independent and creates dependencies first': group consumers are ordered after members only if group edges exist (R-GROUPLINK) and every descriptor and dependency is in the graph; eager creation walks the sorted slice front to back; graph mutators mark both caches dirty and the sort cache is written only with its flag cleared; lifetime validation fills its table completely before the first check (no verdict depends on registration or map order); the validation steps are unconditional. NOT decided: Kahn's algorithm correctness; isomorphism of object graphs under permutation.",
@@ -332,6 +344,12 @@ func init() {
 			ruleSortedCreation(w, r, "R06.2")
 			checkGraphCaches(w, r, "R06.3", "", "R06.3c")
 			ruleLifetimeTableComplete(w, r, "R06.4")
+			r.Rule("R06.5", 10, "analysis = runtime (sibling agreement of the struct walkers and resolvers)")
+			ruleFieldFilters(w, r, "R06.5")
+			r.Rule("R06.6", 2, "the descriptor list keeps registration order (append, reset, order-preserving delete only)")
+			ruleListOrderPreserved(w, r, "R06.6", NewLockAnalysis(w))
+			r.Rule("R06.7", 1, "the degree recomputation counts every edge")
+			ruleDegreeCountsEveryEdge(w, r, "R06.7")
 		})
 	register("C07",
 		"Structural necessary conditions of 'no captive dependencies': a checked lifetime validation dominates provider allocation; only Lifetime==Scoped exempts a dependent and no attribute of a dependency (such as optional) exempts it; the table is complete before the first check, every registration is checked, the dependency loop is left only by continue or by returning the conflict; group dependencies are checked against every member by (Type, Group), plain ones by (Type, Key); the conflict is raised exactly on ==Scoped; derived descriptors copy Lifetime and Dependencies. NOT decided: the 'no false rejection' direction for all sets.",
